@@ -1,9 +1,9 @@
 SPECIFICATION Spec
 CONSTANTS
-  Tier = "mut2"
-  Fams = {"pair", "clos"}
+  Tier = "mut"
+  Fams = {"pair"}
   MaxSteps = 600
   Predict = FALSE
   MaxMut = 2
-  Sugars = {"echo"}
+  Sugars = {"echo", "script"}
 INVARIANTS Export Terminates StoreOK Predicted WellTypedInv
